@@ -43,6 +43,7 @@ def parseMembers (j : Json) : List (String × J) :=
 def hdrOf (j : Json) : Res Hdr :=
   if jStr j "framing" == "bad" then .err "parse" else
   hdrOfMembers (jNat j "nsigs") (parseMembers j) (jBool j "jwkOK") (jBool j "jwkPrivate") (jStr j "payload") (hexNat (jStr j "ref"))
+    (if jHas j "strict" then jBool j "strict" else true)
 
 def b64Of (j : Json) : String → Bool := fun s => (jStrs j "b64ok").contains s
 
